@@ -562,6 +562,42 @@ fn main() {{
             ),
         ),
         (
+            "third-party index type on an array (Index impl crosses a Gc)".into(),
+            body(
+                "#[derive(Collect)]\n#[collect(no_drop)]\nstruct M<'gc> { f: RefLock<Option<C<'gc>>> }\n#[derive(Collect)]\n#[collect(no_drop)]\nstruct N<'gc> { inner: Gc<'gc, M<'gc>> }\nstruct First;\nimpl<'gc> std::ops::Index<First> for [N<'gc>] { type Output = RefLock<Option<C<'gc>>>; fn index(&self, _: First) -> &Self::Output { &self[0].inner.f } }\n#[derive(Collect)]\n#[collect(no_drop)]\nstruct Root<'gc> { holder: Gc<'gc, [N<'gc>; 1]> }",
+                "Root { holder: Gc::new(mc, [N { inner: Gc::new(mc, M { f: RefLock::new(None) }) }]) }",
+                "let w = Gc::write(mc, root.holder); *w[First].unlock().borrow_mut() = Some(child);",
+                "root.holder[0].inner.f.borrow().is_some()",
+            ),
+        ),
+        (
+            "third-party index type on a Vec, impl on the slice".into(),
+            body(
+                "#[derive(Collect)]\n#[collect(no_drop)]\nstruct M<'gc> { f: RefLock<Option<C<'gc>>> }\n#[derive(Collect)]\n#[collect(no_drop)]\nstruct N<'gc> { inner: Gc<'gc, M<'gc>> }\nstruct First;\nimpl<'gc> std::ops::Index<First> for [N<'gc>] { type Output = RefLock<Option<C<'gc>>>; fn index(&self, _: First) -> &Self::Output { &self[0].inner.f } }\nimpl<'gc> std::ops::Index<First> for Vec<N<'gc>> { type Output = RefLock<Option<C<'gc>>>; fn index(&self, _: First) -> &Self::Output { &self[0].inner.f } }\n#[derive(Collect)]\n#[collect(no_drop)]\nstruct Root<'gc> { holder: Gc<'gc, Vec<N<'gc>>> }",
+                "Root { holder: Gc::new(mc, vec![N { inner: Gc::new(mc, M { f: RefLock::new(None) }) }]) }",
+                "let w = Gc::write(mc, root.holder); *w[First].unlock().borrow_mut() = Some(child);",
+                "root.holder[0].inner.f.borrow().is_some()",
+            ),
+        ),
+        (
+            "third-party index type on a VecDeque".into(),
+            body(
+                "#[derive(Collect)]\n#[collect(no_drop)]\nstruct M<'gc> { f: RefLock<Option<C<'gc>>> }\n#[derive(Collect)]\n#[collect(no_drop)]\nstruct N<'gc> { inner: Gc<'gc, M<'gc>> }\nstruct First;\nimpl<'gc> std::ops::Index<First> for VecDeque<N<'gc>> { type Output = RefLock<Option<C<'gc>>>; fn index(&self, _: First) -> &Self::Output { &self[0].inner.f } }\n#[derive(Collect)]\n#[collect(no_drop)]\nstruct Root<'gc> { holder: Gc<'gc, VecDeque<N<'gc>>> }",
+                "Root { holder: Gc::new(mc, VecDeque::from(vec![N { inner: Gc::new(mc, M { f: RefLock::new(None) }) }])) }",
+                "let w = Gc::write(mc, root.holder); *w[First].unlock().borrow_mut() = Some(child);",
+                "root.holder[0].inner.f.borrow().is_some()",
+            ),
+        ),
+        (
+            "third-party index type on a boxed slice".into(),
+            body(
+                "#[derive(Collect)]\n#[collect(no_drop)]\nstruct M<'gc> { f: RefLock<Option<C<'gc>>> }\n#[derive(Collect)]\n#[collect(no_drop)]\nstruct N<'gc> { inner: Gc<'gc, M<'gc>> }\nstruct First;\nimpl<'gc> std::ops::Index<First> for [N<'gc>] { type Output = RefLock<Option<C<'gc>>>; fn index(&self, _: First) -> &Self::Output { &self[0].inner.f } }\n#[derive(Collect)]\n#[collect(no_drop)]\nstruct Root<'gc> { holder: Gc<'gc, Box<[N<'gc>]>> }",
+                "Root { holder: Gc::new(mc, vec![N { inner: Gc::new(mc, M { f: RefLock::new(None) }) }].into_boxed_slice()) }",
+                "let w = Gc::write(mc, root.holder).as_deref(); *w[First].unlock().borrow_mut() = Some(child);",
+                "root.holder[0].inner.f.borrow().is_some()",
+            ),
+        ),
+        (
             "Lock::take needs no barrier and adopts nothing".into(),
             body(
                 "#[derive(Collect)]\n#[collect(no_drop)]\nstruct Root<'gc> { c: Gc<'gc, Lock<Option<C<'gc>>>> }",
